@@ -113,6 +113,24 @@ func (tr *tracked) partModel(i int) *model.G {
 	return tr.m.Members[i]
 }
 
+// partGeom returns the i-th part through the part accessor (a view into the
+// geometry's own storage for the flat types).
+func (tr *tracked) partGeom(i int) geom.T {
+	switch g := tr.t.(type) {
+	case *geom.Polygon:
+		return g.LinearRing(i)
+	case *geom.MultiPoint:
+		return g.Point(i)
+	case *geom.MultiLineString:
+		return g.LineString(i)
+	case *geom.MultiPolygon:
+		return g.Polygon(i)
+	case *geom.GeometryCollection:
+		return g.Geom(i)
+	}
+	return nil
+}
+
 // sweep compares the whole observable state of the tracked geometry with the model.
 func (tr *tracked) sweep(c *fw.Ctx, after string) bool {
 	c.Eval(1)
@@ -327,6 +345,14 @@ func c02History(c *fw.Ctx, idx int) {
 	// one history in four pushes mostly empty parts (runs of empty parts are where
 	// offsets repeat and where slices stay empty while their capacity grows)
 	emptyBias := r.Chance(1, 4)
+	// part objects already pushed once are pushed again now and then (to the same
+	// or to the other geometry): Push must have taken a copy, so whatever was
+	// done to the receivers since - Reverse, further pushes - must not show in them
+	type pooled struct {
+		t geom.T
+		m *model.G
+	}
+	var pool []pooled
 	// after a Clone the next steps push non-empty parts to both geometries in turn
 	forcePush := 0
 	for s := 0; s < steps || forcePush > 0; s++ {
@@ -364,10 +390,79 @@ func c02History(c *fw.Ctx, idx int) {
 			} else if emptyBias && r.Chance(3, 4) {
 				p = c02EmptyPart(r, kind, pl)
 			}
-			hist = append(hist, fmt.Sprintf("%s.Push(%s)", name, p))
-			setIn()
+			pt := p.BuildFlat()
+			reused := false
+			othT := b
+			if cur == b {
+				othT = a
+			}
+			if forcePush == 0 && kind != model.Collection && othT.kind == cur.kind && othT.m.Layout == pl && othT.numParts() > 0 && r.Chance(1, 6) {
+				// the part is a view into the other tracked geometry (its part
+				// accessor's result, whose spare capacity is the rest of that
+				// geometry): pushing it, and pushing more afterwards, must leave the
+				// geometry it was taken from alone - both are swept after every step
+				i := r.Intn(othT.numParts())
+				var view geom.T
+				if c.Guard("panic", func() { view = othT.partGeom(i) }) {
+					return
+				}
+				p, pt = othT.partModel(i).Clone(), view
+				hist = append(hist, fmt.Sprintf("%s.Push(part %d of the other geometry, as returned by its accessor)", name, i))
+				setIn()
+				c.Count("op_push_view_of_other_geometry")
+				var err error
+				if c.Guard("panic", func() { err = cur.push(pt) }) {
+					return
+				}
+				if err != nil {
+					c.Fail("push-error", "Push of a matching-layout part failed: %v", err)
+					return
+				}
+				cur.modelPush(p)
+				pattern += "v"
+				break
+			}
+			if forcePush == 0 && kind != model.Collection && len(pool) > 0 && r.Chance(1, 8) {
+				// a part object pushed earlier gets new coordinates: the geometries it
+				// was pushed to hold copies and must not change
+				pe := &pool[r.Intn(len(pool))]
+				np := c02Part(r, kind, pe.m.Layout)
+				if np.Kind == pe.m.Kind && !(np.Kind == model.Point && np.C0 == nil) {
+					hist = append(hist, fmt.Sprintf("SetCoords(%s) on a part object pushed before", np))
+					setIn()
+					var err error
+					if c.Guard("panic", func() { err = setCoordsOn(pe.t, np) }) {
+						return
+					}
+					if err == nil {
+						pe.m = np
+						c.Count("op_setcoords_on_pushed_part_object")
+					}
+					break
+				}
+			}
+			if forcePush == 0 && len(pool) > 0 && r.Chance(1, 4) {
+				pe := pool[r.Intn(len(pool))]
+				if pe.m.Layout == pl && pe.m.Kind == p.Kind {
+					p, pt, reused = pe.m, pe.t, true
+				}
+			}
+			if reused {
+				hist = append(hist, fmt.Sprintf("%s.Push(the object pushed before: %s)", name, p))
+				setIn()
+				c.Count("op_push_same_object_again")
+				if !expectGeom(c, "a part object pushed earlier, before it is pushed again ("+hist[len(hist)-1]+")", pt, p, model.Opts{}) {
+					return
+				}
+			} else {
+				hist = append(hist, fmt.Sprintf("%s.Push(%s)", name, p))
+				setIn()
+				if len(pool) < 6 {
+					pool = append(pool, pooled{pt, p})
+				}
+			}
 			var err error
-			if c.Guard("panic", func() { err = cur.push(p.BuildFlat()) }) {
+			if c.Guard("panic", func() { err = cur.push(pt) }) {
 				return
 			}
 			c.Count("op_push")
